@@ -226,6 +226,15 @@ static void d_multi(C4_Multi_table_t t)
     { C4_DepLast_vec_t v = C4_Multi_ys(t); D(" ys="); if (!v) D("~"); else { D("["); for (i = 0; i < C4_DepLast_vec_len(v); ++i) { d_deplast(C4_DepLast_vec_at(v, i)); D(","); } D("]"); } }
     D("}");
 }
+/* optional scalars: presence IS part of the value, so it is dumped under every flag set */
+#define OPTF(name, fmt, cast) do { D(" " #name "="); D(C4_Opt_ ## name ## _is_present(t) ? "+" : "-"); D(fmt, (cast)C4_Opt_ ## name(t)); } while (0)
+static void d_opt(C4_Opt_table_t t)
+{
+    if (!t) { D("~"); return; }
+    D("Opt{"); OPTF(i, "%d", int); OPTF(b, "%u", unsigned); OPTF(u, "%u", unsigned); OPTF(e, "%d", int); OPTF(l, "%lld", long long);
+    D(" f="); D(C4_Opt_f_is_present(t) ? "+" : "-"); d_f32(C4_Opt_f(t)); D(" d="); D(C4_Opt_d_is_present(t) ? "+" : "-"); d_f64(C4_Opt_d(t));
+    D(" n="); P(C4_Opt_n_is_present(t)); D("%d}", C4_Opt_n(t));
+}
 static void d_node(C4_Node_table_t t, int depth);
 static void d_tree(C4_Tree_union_type_t type, flatbuffers_generic_t v, int depth)
 {
@@ -307,6 +316,7 @@ static struct root roots[] = {
     { "DpT", C4_DpT_parse_json_as_root, C4_DpT_print_json_as_root, C4_DpT_verify_as_root_with_identifier, 19 },
     { "Dp1", C4_Dp1_parse_json_as_root, C4_Dp1_print_json_as_root, C4_Dp1_verify_as_root_with_identifier, 20 },
     { "Multi", C4_Multi_parse_json_as_root, C4_Multi_print_json_as_root, C4_Multi_verify_as_root_with_identifier, 21 },
+    { "Opt", C4_Opt_parse_json_as_root, C4_Opt_print_json_as_root, C4_Opt_verify_as_root_with_identifier, 22 },
     { "Tiny", C4_Tiny_parse_json_as_root, C4_Tiny_print_json_as_root, C4_Tiny_verify_as_root_with_identifier, 13 },
     { "S1", C4_S1_parse_json_as_root, C4_S1_print_json_as_root, C4_S1_verify_as_root_with_identifier, 14 },
     { "S2", C4_S2_parse_json_as_root, C4_S2_print_json_as_root, C4_S2_verify_as_root_with_identifier, 15 },
@@ -332,6 +342,7 @@ static char *dump_buffer(struct root *r, const void *buf, int presence)
     case 11: d_deplast(C4_DepLast_as_root(buf)); break;
     case 12: d_deponly(C4_DepOnly_as_root(buf)); break;
     case 13: d_tiny(C4_Tiny_as_root(buf)); break;
+    case 22: d_opt(C4_Opt_as_root(buf)); break;
     case 21: d_multi(C4_Multi_as_root(buf)); break;
     case 19: d_dpt(C4_DpT_as_root(buf)); break;
     case 20: d_dp1(C4_Dp1_as_root(buf)); break;
@@ -444,13 +455,19 @@ int main(void)
             else if (!flatcc_builder_end_buffer(&b2, ref) || !(out = (uint8_t *)flatcc_builder_finalize_buffer(&b2, &size))) printf("NOBUF");
             else { uint32_t off = *(uint32_t *)out; uint32_t vl = *(uint32_t *)(out + off); hx_print(out + off + 4, vl); flatcc_builder_free(out); }
             flatcc_builder_clear(&b2); free(fr); free(p);
-        } else if (!strcmp(t[0], "rt") && n == 6) {
+        } else if ((!strcmp(t[0], "rt") || !strcmp(t[0], "rtb")) && n == 6) {
+            /* rtb: t[5] is a FINISHED BUFFER (hex) laid out by the check itself instead of a JSON text (t[4] ignored) */
+            int from_buffer = t[0][2] == 'b';
             struct root *r = roots; uint8_t *p; size_t len, s0 = 0, s1 = 0, n1 = 0, n2 = 0; int p0, v0, p1 = -9, v1 = -9, prc = -9, prc2 = -9, deq = -1, teq = -1;
             int pflags = atoi(t[2]), indent = atoi(t[3]); void *b0, *b1 = 0; char *t1 = 0, *t2 = 0, *d0 = 0, *d1 = 0;
             int presence = !(pflags & (flatcc_json_printer_f_skip_default | flatcc_json_printer_f_force_default));
             while (r->name && strcmp(r->name, t[1])) ++r;
             if (!r->name) { printf("BAD\n"); fflush(stdout); continue; }
             len = hx_decode(t[5], &p);
+            if (from_buffer) {
+                b0 = 0; p0 = 0; s0 = len;
+                if (posix_memalign(&b0, 16, len ? len : 16)) b0 = 0; else { memcpy(b0, p, len); v0 = r->verify(b0, s0, "C4RT"); }
+            } else
             b0 = parse_to_buffer(r, p, len, (flatcc_json_parser_flags_t)atoi(t[4]), &s0, &p0, &v0);
             if (b0 && v0 == 0) {
                 t1 = print_buffer(r, b0, s0, pflags, indent, &n1, &prc);
@@ -469,7 +486,7 @@ int main(void)
             if (deq == 0) printf(" | %.1500s | %.1500s", d0, d1);
             if (teq == 0 && t2) { printf(" | T2 "); hx_print((uint8_t *)t2, n2 > 3000 ? 3000 : n2); }
             free(d0); free(d1); free(t1); free(t2);
-            if (b0) flatcc_builder_aligned_free(b0);
+            if (b0) { if (from_buffer) free(b0); else flatcc_builder_aligned_free(b0); }
             if (b1) flatcc_builder_aligned_free(b1);
             free(p);
         } else printf("BAD");
